@@ -69,6 +69,42 @@ func nilOnSuccess(p *an.Prog) map[*ssa.Function]map[int]bool {
 					return true
 				}
 			}
+		case *ssa.UnOp:
+			// load of a local cell (a named result, possibly assigned inside a function literal that captures it):
+			// nil when never assigned, or when something that may be nil is assigned
+			cell, ok := x.X.(*ssa.Alloc)
+			if !ok || x.Op != token.MUL || cell.Referrers() == nil {
+				return false
+			}
+			n := 0
+			for _, r := range *cell.Referrers() {
+				switch y := r.(type) {
+				case *ssa.Store:
+					if y.Addr == ssa.Value(cell) {
+						n++
+						if mayNil(y.Val, depth+1) {
+							return true
+						}
+					}
+				case *ssa.MakeClosure:
+					lit, _ := y.Fn.(*ssa.Function)
+					for i, bnd := range y.Bindings {
+						if bnd != ssa.Value(cell) || lit == nil || i >= len(lit.FreeVars) {
+							continue
+						}
+						fv := lit.FreeVars[i]
+						an.Instrs(lit, func(in ssa.Instruction) {
+							if st, ok := in.(*ssa.Store); ok && st.Addr == ssa.Value(fv) {
+								n++
+								if mayNil(st.Val, depth+1) {
+									n = -1000
+								}
+							}
+						})
+					}
+				}
+			}
+			return n <= 0
 		}
 		return false
 	}
@@ -83,6 +119,50 @@ func nilOnSuccess(p *an.Prog) map[*ssa.Function]map[int]bool {
 					continue
 				}
 				ev := an.RetOperand(r, errIdx)
+				// results spilled into cells (a function with a defer): every `return x, y` stores into the cells and
+				// jumps to the one Return. Judge each storing site with the values it stores together.
+				if ld, isLd := ev.(*ssa.UnOp); isLd && ld.Op == token.MUL {
+					if ec, isCell := ld.X.(*ssa.Alloc); isCell && spilledSites(ec) > 1 {
+						for _, sb := range f.Blocks {
+							errV := lastStoreIn(sb, ec)
+							if errV == nil {
+								continue
+							}
+							if k, isK := errV.(*ssa.Const); isK {
+								if k.Value != nil {
+									continue
+								}
+							} else if p.ValState(errV, sb, nil) == an.NonNil || isSentinelLoad(p, errV) {
+								continue
+							}
+							for i := 0; i < errIdx; i++ {
+								if !isPtrT(res.At(i).Type()) || nn[f][i] {
+									continue
+								}
+								pl, ok := an.RetOperand(r, i).(*ssa.UnOp)
+								if !ok {
+									continue
+								}
+								pc, ok := pl.X.(*ssa.Alloc)
+								if !ok {
+									continue
+								}
+								pv := lastStoreIn(sb, pc)
+								if pv == nil {
+									continue // assigned elsewhere (before the branch): not judged at this site
+								}
+								if mayNil(pv, 0) && p.ValState(pv, sb, nil) != an.NonNil {
+									if nn[f] == nil {
+										nn[f] = map[int]bool{}
+									}
+									nn[f][i] = true
+									changed = true
+								}
+							}
+						}
+						continue
+					}
+				}
 				// tuple forwarding: return g(...)
 				fwd := false
 				if ex, isEx := ev.(*ssa.Extract); isEx {
@@ -113,7 +193,23 @@ func nilOnSuccess(p *an.Prog) map[*ssa.Function]map[int]bool {
 				}
 				k, isK := ev.(*ssa.Const)
 				if !isK || k.Value != nil {
-					continue // only definite-success returns
+					// not the literal nil: a success return all the same when the error is known nil on the way in (a
+					// bare `return` of named results after `if err != nil { return }`), or of unknown nil-ness (the
+					// error of a wrapped call handed on together with result cells a literal filled in)
+					succ := false
+					if !isK {
+						if len(b.Preds) == 0 {
+							succ = p.ValState(ev, b, nil) != an.NonNil
+						}
+						for _, pr := range b.Preds {
+							if p.ValState(ev, b, pr) != an.NonNil {
+								succ = true
+							}
+						}
+					}
+					if !succ {
+						continue
+					}
 				}
 				for i := 0; i < errIdx; i++ {
 					if !isPtrT(res.At(i).Type()) || nn[f][i] {
@@ -421,3 +517,35 @@ func loadOfCellBefore(cell ssa.Value, in ssa.Instruction) ssa.Value {
 }
 
 var _ = report.New
+
+// spilledSites: number of blocks that store into the cell.
+func spilledSites(cell *ssa.Alloc) int {
+	bs := map[*ssa.BasicBlock]bool{}
+	for _, r := range *cell.Referrers() {
+		if st, ok := r.(*ssa.Store); ok && st.Addr == ssa.Value(cell) {
+			bs[st.Block()] = true
+		}
+	}
+	return len(bs)
+}
+
+// lastStoreIn: the value of the last store into cell made in block b (nil when b has none).
+func lastStoreIn(b *ssa.BasicBlock, cell *ssa.Alloc) ssa.Value {
+	var v ssa.Value
+	for _, in := range b.Instrs {
+		if st, ok := in.(*ssa.Store); ok && st.Addr == ssa.Value(cell) {
+			v = st.Val
+		}
+	}
+	return v
+}
+
+// isSentinelLoad: a load of a package-level error variable that is only ever its initialiser (errors.New / fmt.Errorf).
+func isSentinelLoad(p *an.Prog, v ssa.Value) bool {
+	u, ok := v.(*ssa.UnOp)
+	if !ok || u.Op != token.MUL {
+		return false
+	}
+	g, ok := u.X.(*ssa.Global)
+	return ok && p.Sentinel(g)
+}
